@@ -102,7 +102,10 @@ def describe(prog, body, op, allowed, depth=0):
                 ns = callee_names(t)
                 if not any(n in IDENT for n in ns):
                     parts = ns[0].split("::")
-                    atoms.add("fn:" + "::".join(parts[-2:]))
+                    name = "::".join(parts[-2:])
+                    # the method and the free-function spelling of the same operation
+                    name = {"Ord::min": "cmp::min", "Ord::max": "cmp::max", "Ord::clamp": "cmp::clamp"}.get(name, name)
+                    atoms.add("fn:" + name)
                 for a in t["args"]:
                     k = op_const(a)
                     if k is not None:
